@@ -65,6 +65,10 @@ def install(engine_patch=True):
         return hooked
     sys.path_hooks[:] = [wrap(h) for h in orig_hook_list]
     importlib.invalidate_caches()
+    # logging gets an empty body (a LogRecord reads time.time(), which CrossHair models as a fresh symbolic float:
+    # every logged error would turn the path tree infinite); listed as a stub in every evidence file
+    import logging
+    logging.disable(logging.CRITICAL)
     if engine_patch:
         patch_crosshair()
 
